@@ -1,6 +1,7 @@
 package checks
 
 import (
+	"bytes"
 	"encoding/json"
 	"fmt"
 	"os"
@@ -81,6 +82,16 @@ func runE2EMixed(c *core.Ctx, nshards int, cfg string, mk func(i int) (string, i
 
 				_ = os.Remove(r.trace + ".summary")
 				c.Logf("shard %d: worker gave up (%s), second attempt", i, tail(r.wr.Stderr, 200))
+				r.wr = c.RunWorker(30*time.Minute, task, string(pb))
+			}
+
+			// A trace in which the agent's one-second budget for programming the BESS datapath ran out (a loaded machine: the
+			// agent then answers as if it had programmed the request) is not judged; the shard is run once more. If the second
+			// attempt shows the same, it is not the machine: that attempt is judged as it is.
+			if first == "" && r.wr.ExitCode == 0 && !r.wr.TimedOut && traceHas(r.trace, `"dpTimeout":true`) {
+				c.Logf("shard %d: the agent's datapath budget ran out during the run, second attempt", i)
+				_ = os.Rename(r.trace, r.trace+".dptimeout")
+				_ = os.Remove(r.trace + ".summary")
 				r.wr = c.RunWorker(30*time.Minute, task, string(pb))
 			}
 
@@ -270,4 +281,10 @@ func replayE2E(c *core.Ctx, cfg string) []e2eShard {
 		Env: map[string]string{"TRACE_FILE": trace}, Label: "replay", KnownDevs: devs})
 
 	return []e2eShard{r}
+}
+
+// traceHas reports whether the trace file contains the given text.
+func traceHas(path, what string) bool {
+	b, err := os.ReadFile(path)
+	return err == nil && bytes.Contains(b, []byte(what))
 }
